@@ -2,6 +2,7 @@
 Closures are generated, laid out as a fake gdb.Value graph (harness/fakegdb) and read by the REAL
 extract.received_message()/sent_message(); compared with the model's extract and - on the retained
 part - with what log mode decodes from libwayland's print-out of the same closure."""
+import os
 import random
 
 import common
@@ -249,6 +250,7 @@ def run(res):
     res.kernel_replays += k_n
     if not ok:
         res.disagree('in-kernel replay differs from extracted model', None, None, out[-500:], sig={'entry': 'kernel-replay'})
+    real_gdb_validation(res)
     res.rule = ('closures over every signature of the type codes i u f s o n a h (optional version prefix, ? markers, 0..20 arguments, arguments after arrays of every length, '
                 'null/non-null strings and objects, typed/untyped new ids) read on client side, server side and when sent; plus the same closure printed (model Render) and decoded by log mode; '
                 'non-trivial = at least two argument kinds; distinct by closure')
@@ -291,6 +293,31 @@ def wire_of(cl, kind, target, t):
         else:
             wargs.append(['array', 4 * len(a[1])])
     return [t, [], [], 1 if kind == 2 else 0, target, sender, name, wargs]
+
+
+def real_gdb_validation(res):
+    """The fake gdb module is itself validated against the REAL gdb of the sandbox: the same scripted closures
+    (a C program with libwayland's struct and function names, harness/realgdb/wlmock.c, compiled -g -O0) run through
+    the real plugin inside gdb and under the fake; what the plugin reports must be equal."""
+    import subprocess
+    import sys
+    n = 150 if res.tier == 'quick' else 3000
+    here = os.path.join(os.path.dirname(os.path.dirname(os.path.abspath(__file__))), 'realgdb', 'compare.py')
+    try:
+        p = subprocess.run([sys.executable, '-B', here, '--seed', str(res.seed), '--n', str(n)], capture_output=True, text=True, timeout=900,
+                           env=dict(os.environ, PYTHONPATH=common.REPO + ':' + os.path.dirname(os.path.dirname(os.path.abspath(__file__)))))
+    except Exception as e:
+        res.extra['real_gdb'] = 'not run: %r' % e
+        return
+    tail = (p.stdout + p.stderr)[-1500:]
+    if p.returncode == 0:
+        res.extra['real_gdb'] = tail.strip().split('\n')[-1]
+        res.count('real_gdb_events', n)
+    elif p.returncode == 1:
+        res.disagree('the plugin reports different things under the real gdb and under the fake gdb module', None, None, tail,
+                     sig={'entry': 'real-gdb', 'category': 'fake-vs-real'}, theorem='(tie: harness/fakegdb validated against gdb 13)')
+    else:
+        res.extra['real_gdb'] = 'real gdb side could not run (exit %d): %s' % (p.returncode, tail[-300:])
 
 
 def replay(dis):
